@@ -3,7 +3,7 @@
 set -u
 patch=$1; shift
 cd /verif
-if ! git -C /repo apply --check "$patch" 2>/dev/null; then
+if ! patch=$(readlink -f "$patch"); git -C /repo apply --check "$patch" 2>/dev/null; then
   if ! git -C /repo apply --3way "$patch" 2>/dev/null; then echo "PATCH-DOES-NOT-APPLY $patch"; git -C /repo checkout -- . ; exit 9; fi
   git -C /repo reset -q
 else
